@@ -6,10 +6,14 @@ One JSON object per input line: {"op": "...", ...}; one JSON line per answer:
 -/
 import DriverLib.Basic
 import DriverLib.C01
+import DriverLib.C13
+import DriverLib.C16
 open Lean Drv
 
 def handlers : List (String → Json → Option (R Json)) := [
   Drv.C01.handle,
+  Drv.C13.handle,
+  Drv.C16.handle,
   fun _ _ => none]
 
 def dispatch (line : String) : Json :=
